@@ -699,6 +699,10 @@ func (p *Parser) GroupByClause() ([]ColumnReference, error) {
 			break
 		}
 		ret = append(ret, cr)
+		// grouping columns are a comma separated list; a column must follow a comma
+		if p.match(COMMA) && !p.curType(IDENT) {
+			return ret, p.unexpectedTypeErr(IDENT)
+		}
 	}
 
 	return ret, nil
